@@ -14,6 +14,9 @@ EXTENDS ErrTree, Json, IOUtils
 Trace == ndJsonDeserialize(IOEnv.TRACE_FILE)
 VARIABLES l, bad, stats
 vars == <<l, bad, stats>>
+\* The monitor is a deterministic chain, one state per consumed event: fingerprinting the position alone (cfg: VIEW TraceView)
+\* keeps validation linear however large `bad`, the references or the block grow.
+TraceView == l
 
 Iter == /\ l <= Len(Trace) /\ Trace[l].ev = "Iter" /\ l' = l + 1
         /\ LET e == Trace[l]  want == Take(Leaves(e.tree), e.k) IN
